@@ -319,7 +319,7 @@ impl Check for C03 {
 pub struct C04;
 
 fn hostile(s: &str) -> bool {
-    s.starts_with('/') || s.split('/').any(|c| c == ".." || c == "." || c.is_empty())
+    s.starts_with('/') || s.contains('\\') || s.split('/').any(|c| c == ".." || c == "." || c.is_empty())
 }
 
 impl Check for C04 {
